@@ -112,7 +112,9 @@ def unify(t_a, t_b):
         if hasattr(t_a, "__args__") and len(t_a.__args__) == 1:
             if hasattr(t_b, "__args__"):
                 if len(t_b.__args__) == 1:
-                    return unify(t_a.__args__[0], t_b.__args__[0])
+                    # Two lists unify to the list of what their item types unify to.
+                    t_item = unify(t_a.__args__[0], t_b.__args__[0])
+                    return list[t_item] if t_item is not None else None
                 return None
             return t_a
 
